@@ -561,7 +561,8 @@ def check(pid, tier, seed, replay=None, only_law=None, scale=1.0):
             for l in laws:
                 if l["kind"] != "rc":
                     continue
-                runs = int(min(2000000, max(20000, (l["thorough"] if tier == "thorough" else l["quick"]) * scale / 4)))
+                cnt = (l["thorough"] if tier == "thorough" else l["quick"]) * scale
+                runs = int(min(2000000, max(min(20000, 10 * cnt), cnt / 4)))   # laws with few, expensive cases (statistical tests) get a proportionate campaign
                 for k in range(2 if tier == "thorough" else 1):
                     sd = splitmix(seed ^ int(hashlib.sha1((pid + l["name"] + "fz").encode()).hexdigest()[:12], 16) ^ k)
                     fjobs.append((exe_fz, l["name"], runs, sd, k, tmp, active, max(64, l["len"] * 8)))
